@@ -257,7 +257,7 @@ def main():
     req = mod.required(tier) if hasattr(mod, 'required') else {}
     if prop in suitemon.PROPS and not os.environ.get('VERIF_NO_SUITE') and not a.limit:
         req.setdefault('buckets', {})['suite-under-monitors'] = 1
-        req.setdefault('counters', {}).update({'suite_tests_passed': 50, 'suite_monitor_checks': 20})
+        req.setdefault('counters', {}).update({'suite_tests_passed': 50, 'suite_monitor_checks': 5})
     shortfalls = []
     for k, m in req.get('buckets', {}).items():
         if buckets.get(k, 0) < m:
